@@ -834,6 +834,15 @@ class Crystal(object):
             # reconstruct `t` as a rational vector; if fail, kick out
             T = np.around(M*t).astype(int)
             if not self.__isclose__(t, T/M): continue
+            # a.t becomes a cell vector below: the old cell vectors are integer combinations of the new ones only if the
+            # smallest non-zero component of T divides M and the other components. If not, try the equivalent translation
+            # with components in (-1/2, 1/2] (1/3 for -2/3); failing that, another translation of the group will do
+            for Ttry in (T, T - M*np.ceil(T/M - 0.5).astype(int)):
+                Tm = min(abs(v) for v in Ttry if v != 0)
+                if M % Tm == 0 and all(v % Tm == 0 for v in Ttry): break
+            else:
+                continue
+            T = Ttry
             t = T/M
             trans = True
             for atomlist, spinlist in zip(self.basis, spins):
